@@ -24,8 +24,6 @@ Proof.
   induction p as [|n k IHk|m k IHk|d k IHk|k IHk|k IHk|q IHq k IHk|]; intros tid lvl a cu cmd D;
     cbn [run_instrs sp_instrs pre co with_core depth cur]; repeat rewrite sp_plain_correct; unfold sp_post;
     destruct (plain c _ a cmd D) as [a1 [[cmd1 D1]|]]; try reflexivity.
-  - (* PEnd *)
-    destruct (post c (count a1) cmd1 D1) as [a2 [x|]]; reflexivity.
   - (* PWork *)
     rewrite sp_plain_correct.
     destruct (plain c n a1 cmd1 D1) as [a2 [[cmd2 D2]|]]; [|reflexivity].
@@ -33,8 +31,6 @@ Proof.
   - (* PPrint *)
     destruct (post c (print m (count a1)) cmd1 D1) as [a2 [[cmd2 D2]|]]; [|reflexivity].
     apply IHk.
-  - (* PWait *)
-    destruct (post c (add_timing tid d k (count a1)) cmd1 D1) as [a2 [x|]]; reflexivity.
   - (* PFault *)
     destruct (tick c (log_warn c (count a1))) as [a2 cmd2]. apply IHk.
   - (* PCall *)
